@@ -27,7 +27,7 @@ Inductive pc :=
  | DropMeta | DropLock                         (* Drop: remove meta ; remove lock *)
  | RdMeta | RdLock | LockExists | Live (p : pid) | Ping (p : pid)   (* reads done by the recovery loops; Ping p = GET <endpoint of meta pid p>/openapi.json *)
  | StExists (d : pid) | StReread (d : pid) | StRename (d : pid) | StRdMeta (d : pid) | StMetaRename (d : pid)
- | CoExists | CoMetaExists | CoRename
+ | CoExists | CoMetaExists | CoRdMeta | CoLive (p : pid) | CoRename   (* corrupt cleanup: exists? ; meta exists? ; [read meta ; liveness of its pid] ; rename *)
  | Serving                                     (* holds the guard, serves; a step = shutdown begins *)
  | Done.
 
@@ -101,7 +101,7 @@ Definition pc_code (c : pc) : N :=
   | Done => 0 | AcqCreate => 1 | AcqWrite => 2 | MetaTmp => 3 | MetaRemove => 4 | MetaRename => 5
   | DropMeta => 6 | DropLock => 7 | RdMeta => 8 | RdLock => 9 | LockExists => 10 | Live _ => 11 | Ping _ => 12
   | StExists _ => 13 | StReread _ => 14 | StRename _ => 15 | StRdMeta _ => 16 | StMetaRename _ => 17
-  | CoExists => 18 | CoMetaExists => 19 | CoRename => 20 | Serving => 21
+  | CoExists => 18 | CoMetaExists => 19 | CoRename => 20 | Serving => 21 | CoRdMeta => 22 | CoLive _ => 23
   end.
 
 (* first operation of a call; calls that need the guard are skipped (None) without it *)
@@ -261,8 +261,16 @@ Definition micro (ag : bool) (s : state) (o : N) (q : proc) : state * proc :=
   | CoMetaExists =>
       match m with
       | MAbsent => (s, goto q CoRename)
-      | MRec _ => (s, R (p_guard q) (RCorrupt false))
+      | MRec _ => (s, goto q CoRdMeta)
       end
+  | CoRdMeta =>
+      (* a meta.json protects the unreadable lock only while the pid in it may be alive (fix of the wedge S23) *)
+      match m with
+      | MRec p => (s, goto q (CoLive p))
+      | MAbsent => (s, R (p_guard q) (RCorrupt false))
+      end
+  | CoLive p =>
+      if pid_alive ps p then (s, R (p_guard q) (RCorrupt false)) else (s, goto q CoRename)
   | CoRename =>
       match l with
       | LAbsent => (s, R (p_guard q) (RCorrupt false))
